@@ -66,9 +66,10 @@ namespace occa {
   }
 
   memoryPool& memoryPool::swap(memoryPool &m) {
-    modeMemoryPool_t *modeMemoryPool_ = modeMemoryPool;
-    modeMemoryPool   = m.modeMemoryPool;
-    m.modeMemoryPool = modeMemoryPool_;
+    // Swap through handles so both objects' reference rings follow the pointers
+    memoryPool tmp(*this);
+    *this = m;
+    m = tmp;
     return *this;
   }
 
